@@ -20,7 +20,7 @@ from golem.utilities.data_structures import UniqueList
 REQ = ['Graph.OpsSpec']
 PRE = 'From GolemV Require Import Graph.Heap Graph.Ops.\nLocal Open Scope nat_scope.'
 FN = 'fun c => match c with (h, g, o, ob) => check (h, g) o ob end'
-K = 6
+K = 7
 MODES = {'none': ('RNone', ReconnectType.none), 'single': ('RSingle', ReconnectType.single),
          'all': ('RAll', ReconnectType.all)}
 
@@ -432,13 +432,13 @@ def evaluate(ctx, col):
         if not ag and not ho:
             ctx.canaries_caught += 1
         res = res[:-1]
-    for r, (ag, ho, dom, hwf, hspec, hacy) in zip(recs, res):
+    for r, (ag, ho, dom, hwf, hspec, hacy, decl) in zip(recs, res):
         case = dict(r['replay'])
         case['step'] = {'heap': jsonable(r['heap']), 'g': list(r['g']), 'op': r['op'],
                         'observed': r.get('raise') or jsonable(r['after']), 'msg': r.get('msg', '')}
         changed = ('raise' in r) or (r['after'] != (r['heap'], r['g']))
         ctx.count(r['group'], key=(r['heap'], r['g'], r['op']), nontrivial=bool(dom and changed),
-                  op=r['kind'], in_domain=dom, members=len(r['g']),
+                  op=r['kind'], in_domain=dom, model_declined=decl, members=len(r['g']),
                   outcome=r.get('raise', 'ok' if changed else 'no-change'))
         if not ho:
             what = []
